@@ -69,11 +69,21 @@ func c01Judge(k c01Case) *vlib.Failure {
 		if got != (want || all) {
 			return vlib.Failf("Origins=%q, GET with Origin %q: ACAO=%q but the configuration allows it: %t", k.Patterns, k.Origin, acao, want || all)
 		}
-		pre := vlib.Serve(h, &inner.Calls, vlib.Req{Method: "OPTIONS", Hdr: map[string][]string{"Origin": {k.Origin}, "Access-Control-Request-Method": {"GET"}}}, nil)
-		pacao := pre.Hdr["Access-Control-Allow-Origin"]
-		pgot := pre.Status/100 == 2 && len(pacao) == 1 && (pacao[0] == k.Origin || all && pacao[0] == "*")
-		if pgot != (want || all) {
-			return vlib.Failf("Origins=%q, preflight with Origin %q: status %d ACAO=%q but the configuration allows it: %t", k.Patterns, k.Origin, pre.Status, pacao, want || all)
+		for _, dbg := range []bool{false, true} {
+			m.SetDebug(dbg)
+			pre := vlib.Serve(h, &inner.Calls, vlib.Req{Method: "OPTIONS", Hdr: map[string][]string{"Origin": {k.Origin}, "Access-Control-Request-Method": {"GET"}}}, nil)
+			pacao := pre.Hdr["Access-Control-Allow-Origin"]
+			pgot := pre.Status/100 == 2 && len(pacao) == 1 && (pacao[0] == k.Origin || all && pacao[0] == "*")
+			if pgot != (want || all) {
+				return vlib.Failf("Origins=%q, debug=%t, preflight with Origin %q: status %d ACAO=%q but the configuration allows it: %t", k.Patterns, dbg, k.Origin, pre.Status, pacao, want || all)
+			}
+			if dbg {
+				res := vlib.Serve(h, &inner.Calls, vlib.Req{Method: "GET", Hdr: map[string][]string{"Origin": {k.Origin}}}, nil)
+				acao := res.Hdr["Access-Control-Allow-Origin"]
+				if got := len(acao) == 1 && (acao[0] == k.Origin || all && acao[0] == "*"); got != (want || all) || len(acao) > 1 {
+					return vlib.Failf("Origins=%q, debug on, GET with Origin %q: ACAO=%q but the configuration allows it: %t", k.Patterns, k.Origin, acao, want || all)
+				}
+			}
 		}
 	case "api-after-reconfigure", "api-reconfigure-in-flight", "api-edit-in-place-and-reconfigure":
 		// the probe origin was allowed a moment ago by another configuration of the same middleware
@@ -684,6 +694,28 @@ func checkC01(c *vlib.Ctx) (string, string) {
 					}
 				}
 			}
+			// the same verdicts in debug mode
+			m.SetDebug(true)
+			for o := range pset {
+				want := all || ref.DenotedByAny(list, o)
+				rec := vlib.NewRec()
+				h.ServeHTTP(rec, vlib.Req{Method: "GET", Hdr: map[string][]string{"Origin": {o}}}.HTTP())
+				acao := rec.H["Access-Control-Allow-Origin"]
+				got := len(acao) == 1 && (acao[0] == o || all && acao[0] == "*")
+				rec2 := vlib.NewRec()
+				h.ServeHTTP(rec2, vlib.Req{Method: "OPTIONS", Hdr: map[string][]string{"Origin": {o}, "Access-Control-Request-Method": {"GET"}}}.HTTP())
+				pacao := rec2.H["Access-Control-Allow-Origin"]
+				pgot := rec2.Status/100 == 2 && len(pacao) == 1 && (pacao[0] == o || all && pacao[0] == "*")
+				if got != want || pgot != want || len(acao) > 1 {
+					k := c01Case{list, o, "api"}
+					if jf := vlib.Guard(func() *vlib.Failure { return c01Judge(k) }); jf != nil {
+						ck.Report(k, jf)
+					} else {
+						vlib.HarnessError("API pass (debug on) and judge disagree on %+v", k)
+					}
+				}
+			}
+			m.SetDebug(false)
 			// the same verdicts when the probe origin was allowed a moment ago by another configuration
 			for o := range pset {
 				want := all || ref.DenotedByAny(list, o)
@@ -699,8 +731,8 @@ func checkC01(c *vlib.Ctx) (string, string) {
 					}
 				}
 			}
-			c.Evaluations.Add(int64(5 * len(pset)))
-			c.Transitions.Add(int64(11 * len(pset)))
+			c.Evaluations.Add(int64(7 * len(pset)))
+			c.Transitions.Add(int64(13 * len(pset)))
 		})
 		apiLists = w.Count() - 1
 		_ = apiReqs
